@@ -8,7 +8,7 @@ import nixcases  # noqa: E402
 
 ID = "C12"
 THEOREMS = ["c12_creators", "c12_nested_creators", "c12_create_multi_tag", "c12_append", "c12_remove",
-            "c12_delete", "c12_set_attr", "c12_set_link", "c12_lookup", "c12_create_feature_refuted",
+            "c12_delete", "c12_set_attr", "c12_set_link", "c12_lookup", "c12_create_feature",
             "c12_dimension_calls", "c12_dimension_refusals_exact"]
 
 
@@ -89,6 +89,32 @@ def run(ctx):
         "known_finding_instances": len(known), "disagreements": len(disagreements), "spec_failures": len(failures),
         "samples": [hists[0]["ops"][:6]],
     })
+    # call sites that are exercised, not modelled: every public creating / mutating call x every class of invalid
+    # argument, complete HDF5 content compared before / after, rejected names retried with a valid argument
+    sweep = ctx.run_impl("impl_refusals.py", {})
+    sweep_bad = []
+    for r in sweep:
+        if "build_error" in r:
+            st["broken"].append("refusal sweep could not build its file: %s" % r["build_error"])
+            continue
+        what = None
+        if r["outcome"] == "accepted":
+            what = "an invalid argument (%s) was accepted" % r["class"]
+        elif r["changed"]:
+            what = "a refused call changed the file"
+        elif r.get("retry") not in (None, "ok"):
+            what = "the rejected name is not available to a later valid call"
+        if what:
+            sweep_bad.append((what, {"call": r["label"], "auto_timestamps": r["auto_timestamps"]},
+                              {"exception": r.get("exception"), "changed": r["changed"][:6], "retry": r.get("retry")}))
+    ctx.coverage["refusal_sweep"] = {"trials": len(sweep), "call_sites": len(set(r["label"] for r in sweep)),
+                                     "classes": sorted(set(r["class"] for r in sweep)), "failures": len(sweep_bad)}
+    if sweep_bad and not ctx.violations:
+        what, inp, obs = sweep_bad[0]
+        rp = ctx.write_replay("%s-sweep-seed%d.json" % (ID, ctx.seed), {"property": ID, "kind": what, "input": inp, "observed": obs,
+                                                                          "count": len(sweep_bad), "all": [b[1]["call"] for b in sweep_bad],
+                                                                          "how_to_replay": "harness/impl_refusals.py (the trial with this label)"})
+        ctx.violation("%d refusal trials violate C12, e.g. %s: %r %r" % (len(sweep_bad), what, inp, obs), rp)
     # dimension calls: every refusal class, on linked and unlinked dimensions
     import dimlink
     cov = dimlink.stage(ctx, st, 1200 if ctx.tier == "thorough" else 150, 18 if ctx.tier == "thorough" else 14,
